@@ -76,6 +76,10 @@ def body():
                 variants.append(("seg%d" % segs[-1], {"segments": [int(segs[-1])]}))
             if n >= 3:
                 variants.append(("sup", {"support_elements": np.array([n - 2, n - 1], dtype="uint32")}))
+            if len(segs) > 1:
+                # normals of one domain swapped: surface curl and normal of those elements change sign, W = T' S Whyp S T
+                variants.append(("swap%d" % segs[-1], {"swapped_normals": [int(segs[-1])]}))
+                variants.append(("swap%d" % segs[0], {"swapped_normals": [int(segs[0])]}))
             ks = [0.0, 0.9, 0.7 + 0.4j] if quick else [0.0, 0.9, 0.7 + 0.4j, 0.6j, -0.5 + 0.3j]
             for k in ks:
                 if k == 0.0:
@@ -97,6 +101,9 @@ def body():
                         if not T.any():
                             continue
                         W = (b.laplace.hypersingular(P1, P1, P1) if k == 0.0 else b.helmholtz.hypersingular(P1, P1, P1, k)).weak_form().to_dense()
+                        if vname.startswith("swap"):
+                            S = np.repeat(np.where(m.dom == kw["swapped_normals"][0], -1.0, 1.0), 3)
+                            T = S[:, None] * T
                         want = T.T.dot(Whyp).dot(T)
                         chk.count((m.id, "hyp", k, vname, ibd), n >= 2)
                         chk.cov["obligations_replayed"] += 1
@@ -110,7 +117,7 @@ def body():
                             Wm = b.modified_helmholtz.hypersingular(P1, P1, P1, k.imag).weak_form().to_dense()
                             if np.abs(Wm - want).max() > TOL * max(1e-3, np.abs(want).max()):
                                 fail("decomposition:modified_hypersingular", "modified Helmholtz hypersingular (w=%s) differs from the decomposition" % k.imag)
-                        if Eloc is not None:
+                        if Eloc is not None and not vname.startswith("swap"):
                             try:
                                 rwg = api.function_space(g, "RWG", 0, include_boundary_dofs=ibd, **kw)
                                 snc = api.function_space(g, "SNC", 0, include_boundary_dofs=ibd, **kw)
